@@ -568,36 +568,82 @@ func genFixed(s spec) genOut {
 type deepShape struct {
 	Name string
 	Gen  func(d int) string
-	Max  int  // largest depth generated for this shape (0 = no limit)
-	Wide bool // breadth, not depth (not a recursion test: size cap applies)
+	Max  int    // largest depth generated for this shape (0 = no limit)
+	Kind string // how far the shape is taken, see depths()
+}
+
+// depths: how deep a production is nested depends on what the implementation spends on it, so that a
+// tier stays within its time budget (a slow compile is not this property's business):
+//
+//	lin    parsed/compiled in linear time:                quick 10..1e5, thorough + 1e6
+//	""     recursive productions (default):               quick 10..1e4, thorough + 1e5, 1e6
+//	quad   nested statement blocks (compile is quadratic): quick 10..1e3, thorough + 1e4, 1e6
+//	cubic  nested function literals (compile is cubic):   quick 10, 100, 300, thorough + 1e3, 1e6
+//	wide   breadth instead of depth (size cap 1e5):       both 10..1e5
+func (s deepShape) depths(thorough bool) []int {
+	var ds []int
+	switch s.Kind {
+	case "lin":
+		ds = []int{10, 100, 1000, 10000, 100000}
+		if thorough {
+			ds = append(ds, 1000000)
+		}
+	case "quad":
+		ds = []int{10, 100, 1000}
+		if thorough {
+			ds = append(ds, 10000, 1000000)
+		}
+	case "cubic":
+		ds = []int{10, 100, 300}
+		if thorough {
+			ds = append(ds, 1000, 1000000)
+		}
+	case "wide":
+		ds = []int{10, 100, 1000, 10000, 100000}
+	default:
+		ds = []int{10, 100, 1000, 10000}
+		if thorough {
+			ds = append(ds, 100000, 1000000)
+		}
+	}
+	if s.Max > 0 {
+		var out []int
+		for _, d := range ds {
+			if d <= s.Max {
+				out = append(out, d)
+			}
+		}
+		return out
+	}
+	return ds
 }
 
 func rep(s string, n int) string { return strings.Repeat(s, n) }
 
 var deepShapes = []deepShape{
-	{Name: "paren", Gen: func(d int) string { return rep("(", d) + "1" + rep(")", d) }},
-	{Name: "paren-open", Gen: func(d int) string { return rep("(", d) }},
+	{Name: "paren", Gen: func(d int) string { return rep("(", d) + "1" + rep(")", d) }, Kind: "lin"},
+	{Name: "paren-open", Gen: func(d int) string { return rep("(", d) }, Kind: "lin"},
 	{Name: "list", Gen: func(d int) string { return rep("[", d) + "1" + rep("]", d) }},
 	{Name: "list-open", Gen: func(d int) string { return rep("[", d) }},
 	{Name: "map", Gen: func(d int) string { return rep(`{"a":`, d) + "1" + rep("}", d) }},
 	{Name: "set", Gen: func(d int) string { return "x := " + rep("{", d) + "1" + rep("}", d) }},
 	{Name: "brace-open", Gen: func(d int) string { return rep("{", d) }},
-	{Name: "block", Gen: func(d int) string { return rep("{\n", d) + "1\n" + rep("}\n", d) }},
-	{Name: "bang", Gen: func(d int) string { return "x := true; " + rep("!", d) + "x" }},
+	{Name: "block", Gen: func(d int) string { return rep("{\n", d) + "1\n" + rep("}\n", d) }, Kind: "lin"},
+	{Name: "bang", Gen: func(d int) string { return "x := true; " + rep("!", d) + "x" }, Kind: "lin"},
 	{Name: "neg", Gen: func(d int) string { return rep("- ", d) + "1" }},
 	{Name: "neg-raw", Gen: func(d int) string { return "x := 1; " + rep("-", d) + "x" }},
 	{Name: "not", Gen: func(d int) string { return "x := [1]; 1 " + rep("not ", d) + "in x" }},
-	{Name: "func-lit", Gen: func(d int) string { return rep("func() { ", d) + rep("}", d) }},
-	{Name: "func-return", Gen: func(d int) string { return "f := " + rep("func() { return ", d) + "1" + rep(" }", d) + "; f()" }},
-	{Name: "func-call-now", Gen: func(d int) string { return rep("func() { return ", d) + "1" + rep(" }()", d) }},
+	{Name: "func-lit", Gen: func(d int) string { return rep("func() { ", d) + rep("}", d) }, Kind: "cubic"},
+	{Name: "func-return", Gen: func(d int) string { return "f := " + rep("func() { return ", d) + "1" + rep(" }", d) + "; f()" }, Kind: "cubic"},
+	{Name: "func-call-now", Gen: func(d int) string { return rep("func() { return ", d) + "1" + rep(" }()", d) }, Kind: "cubic"},
 	{Name: "func-default-arg", Gen: func(d int) string { return rep("func(a=", d) + "1" + rep(") {}", d) }},
-	{Name: "func-named", Gen: func(d int) string { return rep("func f() { ", d) + rep("}", d) }},
-	{Name: "if", Gen: func(d int) string { return "x := true; " + rep("if x { ", d) + "1" + rep(" }", d) }},
-	{Name: "if-else-chain", Gen: func(d int) string { return "x := false; " + rep("if x { 1 } else ", d) + "{ 2 }" }},
+	{Name: "func-named", Gen: func(d int) string { return rep("func f() { ", d) + rep("}", d) }, Kind: "cubic"},
+	{Name: "if", Gen: func(d int) string { return "x := true; " + rep("if x { ", d) + "1" + rep(" }", d) }, Kind: "quad"},
+	{Name: "if-else-chain", Gen: func(d int) string { return "x := false; " + rep("if x { 1 } else ", d) + "{ 2 }" }, Kind: "quad"},
 	{Name: "if-cond", Gen: func(d int) string { return rep("if ", d) + "true" + rep(" { true }", d) }},
-	{Name: "for-range", Gen: func(d int) string { return rep("for i := range 1 { ", d) + "1" + rep(" }", d) }},
-	{Name: "for-cond", Gen: func(d int) string { return rep("for true { ", d) + "break" + rep(" }", d) }},
-	{Name: "switch", Gen: func(d int) string { return rep("switch 1 { case 1: ", d) + "1" + rep(" }", d) }},
+	{Name: "for-range", Gen: func(d int) string { return rep("for i := range 1 { ", d) + "1" + rep(" }", d) }, Kind: "quad"},
+	{Name: "for-cond", Gen: func(d int) string { return "x := true; " + rep("for x { ", d) + "x = false" + rep(" }", d) }, Kind: "quad"},
+	{Name: "switch", Gen: func(d int) string { return rep("switch 1 { case 1: ", d) + "1" + rep(" }", d) }, Kind: "quad"},
 	{Name: "switch-subject", Gen: func(d int) string { return rep("switch ", d) + "1" + rep(" { default: 1 }", d) }},
 	{Name: "attr-chain", Gen: func(d int) string { return `x := {}; x["y"] = x; x` + rep(".y", d) }},
 	{Name: "call-chain", Gen: func(d int) string { return "func f() { return f }; f" + rep("()", d) }},
@@ -617,29 +663,29 @@ var deepShapes = []deepShape{
 	{Name: "ternary-else", Gen: func(d int) string { return "x := false; " + rep("x ? 1 : ", d) + "0" }},
 	{Name: "ternary-then", Gen: func(d int) string { return "x := true; " + rep("x ? ", d) + "0" + rep(" : 1", d) }},
 	{Name: "ternary-paren", Gen: func(d int) string { return "x := false; " + rep("x ? 1 : (", d) + "0" + rep(")", d) }},
-	{Name: "template-nest", Gen: func(d int) string { return rep("'{", d) + "1" + rep("}'", d) }},
+	{Name: "template-nest", Gen: func(d int) string { return rep("'{", d) + "1" + rep("}'", d) }, Kind: "lin"},
 	{Name: "template-flat", Gen: func(d int) string { return "x := 1; '" + rep("{x}", d) + "'" }},
 	{Name: "template-paren", Gen: func(d int) string { return "'{" + rep("(", d) + "1" + rep(")", d) + "}'" }},
-	{Name: "pipe-chain", Gen: func(d int) string { return "f := func(x) { return x }; 1" + rep(" | f", d) }},
+	{Name: "pipe-chain", Gen: func(d int) string { return "f := func(x) { return x }; 1" + rep(" | f", d) }, Kind: "lin"},
 	{Name: "in-chain", Gen: func(d int) string { return rep("1 in ", d) + "[1]" }},
 	{Name: "assign-chain", Gen: func(d int) string { return "a := 0; " + rep("a = ", d) + "1" }},
 	{Name: "send-chain", Gen: func(d int) string { return "c := 1; " + rep("c <- ", d) + "1" }},
 	{Name: "recv-chain", Gen: func(d int) string { return "c := 1; " + rep("<-", d) + "c" }},
-	{Name: "go-nest", Gen: func(d int) string { return rep("go func() { ", d) + rep(" }()", d) }},
-	{Name: "defer-nest", Gen: func(d int) string { return "func() { " + rep("defer func() { ", d) + rep(" }()", d) + " }()" }},
-	{Name: "comment-open", Gen: func(d int) string { return rep("/*", d) }},
-	{Name: "comment-nest", Gen: func(d int) string { return rep("/* ", d) + rep("*/ ", d) }},
-	{Name: "comments-many", Gen: func(d int) string { return rep("/* c */ ", d) + "1" }},
-	{Name: "newlines", Gen: func(d int) string { return rep("\n", d) + "1" }},
-	{Name: "semicolons", Gen: func(d int) string { return rep(";", d) + "1" }},
-	{Name: "statements", Gen: func(d int) string { return rep("1\n", d) }},
+	{Name: "go-nest", Gen: func(d int) string { return rep("go func() { ", d) + rep(" }()", d) }, Kind: "cubic"},
+	{Name: "defer-nest", Gen: func(d int) string { return "func() { " + rep("defer func() { ", d) + rep(" }()", d) + " }()" }, Kind: "cubic"},
+	{Name: "comment-open", Gen: func(d int) string { return rep("/*", d) }, Kind: "lin"},
+	{Name: "comment-nest", Gen: func(d int) string { return rep("/* ", d) + rep("*/ ", d) }, Kind: "lin"},
+	{Name: "comments-many", Gen: func(d int) string { return rep("/* c */ ", d) + "1" }, Kind: "lin"},
+	{Name: "newlines", Gen: func(d int) string { return rep("\n", d) + "1" }, Kind: "lin"},
+	{Name: "semicolons", Gen: func(d int) string { return rep(";", d) + "1" }, Kind: "lin"},
+	{Name: "statements", Gen: func(d int) string { return rep("1\n", d) }, Kind: "lin"},
 	{Name: "declarations", Gen: func(d int) string {
 		var sb strings.Builder
 		for i := 0; i < d; i++ {
 			sb.WriteString("v" + strconv.Itoa(i) + " := " + strconv.Itoa(i) + "\n")
 		}
 		return sb.String()
-	}, Max: 100000, Wide: true},
+	}, Max: 100000, Kind: "wide"},
 	{Name: "locals", Gen: func(d int) string {
 		var sb strings.Builder
 		sb.WriteString("func f() {\n")
@@ -648,9 +694,9 @@ var deepShapes = []deepShape{
 		}
 		sb.WriteString("return v0 }\nf()")
 		return sb.String()
-	}, Max: 100000, Wide: true},
-	{Name: "list-wide", Gen: func(d int) string { return "[" + rep("1, ", d) + "1]" }, Wide: true},
-	{Name: "list-wide-calls", Gen: func(d int) string { return "f := func() { return 1 }; [" + rep("f(), ", d) + "1]" }, Wide: true},
+	}, Max: 100000, Kind: "wide"},
+	{Name: "list-wide", Gen: func(d int) string { return "[" + rep("1, ", d) + "1]" }, Kind: "wide"},
+	{Name: "list-wide-calls", Gen: func(d int) string { return "f := func() { return 1 }; [" + rep("f(), ", d) + "1]" }, Kind: "wide"},
 	{Name: "map-wide", Gen: func(d int) string {
 		var sb strings.Builder
 		sb.WriteString("{")
@@ -659,7 +705,7 @@ var deepShapes = []deepShape{
 		}
 		sb.WriteString("}")
 		return sb.String()
-	}, Max: 100000, Wide: true},
+	}, Max: 100000, Kind: "wide"},
 	{Name: "set-wide", Gen: func(d int) string {
 		var sb strings.Builder
 		sb.WriteString("{")
@@ -668,9 +714,9 @@ var deepShapes = []deepShape{
 		}
 		sb.WriteString("0}")
 		return sb.String()
-	}, Max: 100000, Wide: true},
-	{Name: "call-args-wide", Gen: func(d int) string { return "print(" + rep("1, ", d) + "1)" }, Wide: true},
-	{Name: "func-call-args-wide", Gen: func(d int) string { return "f := func(a) { return a }; f(" + rep("1, ", d) + "1)" }, Wide: true},
+	}, Max: 100000, Kind: "wide"},
+	{Name: "call-args-wide", Gen: func(d int) string { return "print(" + rep("1, ", d) + "1)" }, Kind: "wide"},
+	{Name: "func-call-args-wide", Gen: func(d int) string { return "f := func(a) { return a }; f(" + rep("1, ", d) + "1)" }, Kind: "wide"},
 	{Name: "params-wide", Gen: func(d int) string {
 		var sb, args strings.Builder
 		sb.WriteString("func f(")
@@ -680,7 +726,7 @@ var deepShapes = []deepShape{
 		}
 		sb.WriteString("q) { return q }; f(" + args.String() + "1)")
 		return sb.String()
-	}, Max: 100000, Wide: true},
+	}, Max: 100000, Kind: "wide"},
 	{Name: "default-params-wide", Gen: func(d int) string {
 		var sb strings.Builder
 		sb.WriteString("func f(")
@@ -689,7 +735,7 @@ var deepShapes = []deepShape{
 		}
 		sb.WriteString("q=2) { return q }; f()")
 		return sb.String()
-	}, Max: 100000, Wide: true},
+	}, Max: 100000, Kind: "wide"},
 	{Name: "multi-assign-wide", Gen: func(d int) string {
 		var l, r strings.Builder
 		for i := 0; i < d; i++ {
@@ -697,7 +743,7 @@ var deepShapes = []deepShape{
 			r.WriteString("1, ")
 		}
 		return l.String() + "w := [" + r.String() + "1]"
-	}, Max: 100000, Wide: true},
+	}, Max: 100000, Kind: "wide"},
 	{Name: "switch-cases-wide", Gen: func(d int) string {
 		var sb strings.Builder
 		sb.WriteString("switch 0 {\n")
@@ -706,20 +752,20 @@ var deepShapes = []deepShape{
 		}
 		sb.WriteString("default: 0\n}")
 		return sb.String()
-	}, Max: 100000, Wide: true},
-	{Name: "case-values-wide", Gen: func(d int) string { return "switch 0 { case " + rep("1, ", d) + "1: 2 }" }, Wide: true},
-	{Name: "import-names-wide", Gen: func(d int) string { return "from math import (" + rep("abs, ", d) + "abs)" }, Wide: true},
+	}, Max: 100000, Kind: "wide"},
+	{Name: "case-values-wide", Gen: func(d int) string { return "switch 0 { case " + rep("1, ", d) + "1: 2 }" }, Kind: "wide"},
+	{Name: "import-names-wide", Gen: func(d int) string { return "from math import (" + rep("abs, ", d) + "abs)" }, Kind: "wide"},
 	{Name: "closure-capture-deep", Gen: func(d int) string {
 		return "func f(a) { " + rep("return func() { ", d) + "return a" + rep(" }", d) + " }; g := f(1)" + rep("; g = g()", d) + "; g"
-	}, Max: 10000},
-	{Name: "long-ident", Gen: func(d int) string { return rep("x", d) + " := 1" }, Wide: true},
-	{Name: "long-int", Gen: func(d int) string { return rep("1", d) }, Wide: true},
-	{Name: "long-float", Gen: func(d int) string { return "0." + rep("1", d) }, Wide: true},
-	{Name: "long-string", Gen: func(d int) string { return `"` + rep("a", d) + `"` }, Wide: true},
-	{Name: "long-line-error", Gen: func(d int) string { return rep("x ", d) + ")" }, Wide: true},
-	{Name: "long-comment-line", Gen: func(d int) string { return "// " + rep("c", d) + "\n)" }, Wide: true},
-	{Name: "loop-body-big", Gen: func(d int) string { return "x := 0; for i := range 2 { " + rep("x = x + 1; ", d) + "}; x" }, Max: 100000, Wide: true},
-	{Name: "if-body-big", Gen: func(d int) string { return "x := 0; if x == 1 { " + rep("x = x + 1; ", d) + "} else { " + rep("x = x + 2; ", d) + "}; x" }, Max: 100000, Wide: true},
+	}, Max: 1000, Kind: "cubic"},
+	{Name: "long-ident", Gen: func(d int) string { return rep("x", d) + " := 1" }, Kind: "wide"},
+	{Name: "long-int", Gen: func(d int) string { return rep("1", d) }, Kind: "wide"},
+	{Name: "long-float", Gen: func(d int) string { return "0." + rep("1", d) }, Kind: "wide"},
+	{Name: "long-string", Gen: func(d int) string { return `"` + rep("a", d) + `"` }, Kind: "wide"},
+	{Name: "long-line-error", Gen: func(d int) string { return rep("x ", d) + ")" }, Kind: "wide"},
+	{Name: "long-comment-line", Gen: func(d int) string { return "// " + rep("c", d) + "\n)" }, Kind: "wide"},
+	{Name: "loop-body-big", Gen: func(d int) string { return "x := 0; for i := range 2 { " + rep("x = x + 1; ", d) + "}; x" }, Max: 100000, Kind: "wide"},
+	{Name: "if-body-big", Gen: func(d int) string { return "x := 0; if x == 1 { " + rep("x = x + 1; ", d) + "} else { " + rep("x = x + 2; ", d) + "}; x" }, Max: 100000, Kind: "wide"},
 	{Name: "constants-many", Gen: func(d int) string {
 		var sb strings.Builder
 		sb.WriteString("x := [")
@@ -728,7 +774,7 @@ var deepShapes = []deepShape{
 		}
 		sb.WriteString("]; len(x)")
 		return sb.String()
-	}, Max: 100000, Wide: true},
+	}, Max: 100000, Kind: "wide"},
 	{Name: "functions-many", Gen: func(d int) string {
 		var sb strings.Builder
 		for i := 0; i < d; i++ {
@@ -736,7 +782,7 @@ var deepShapes = []deepShape{
 		}
 		sb.WriteString("f0()")
 		return sb.String()
-	}, Max: 100000, Wide: true},
+	}, Max: 100000, Kind: "wide"},
 }
 
 func genDeep(s spec) genOut {
